@@ -87,7 +87,9 @@ def sw_residue_case(p, dw, seq):
 
 
 def w_sw_small(task):
-    width, polys, spec = task
+    width, polys, spec = task[:3]
+    inits = task[3] if len(task) > 3 and task[3] is not None else None
+    xors = task[4] if len(task) > 4 and task[4] is not None else None
     out = _new_out()
     cov = out["cov"]
     cov["sw_evaluations"] = cov["sw_parameter_sets"] = cov["sw_residue_evaluations"] = 0
@@ -97,13 +99,13 @@ def w_sw_small(task):
         seqs = sequences(alpha, maxlen)
         for poly in polys:
             for refin in (False, True):
-                for init in range(n):
+                for init in (inits if inits is not None else range(n)):
                     regs = []
                     for seq, parent in seqs:
                         regs.append(init if parent < 0 else R.feed_word(regs[parent], seq[-1], width, poly, refin, dw))
                     cov["sw_nontrivial"] += len(set(regs)) > 1
                     for refout in (False, True):
-                        for xorout in range(n):
+                        for xorout in (xors if xors is not None else range(n)):
                             p = (width, poly, init, refin, refout, xorout)
                             params = _algo(p)(dw)
                             cov["sw_parameter_sets"] += 1
@@ -441,7 +443,9 @@ def w_hw_catalog(task):
         cov["catalogue_hw_trace_steps"] += tr["steps"]
         cov["transitions"] += tr["steps"]
         allflags.update("cat_" + f for f in tr["flags"])
-        for where, e in errs[:2]:
+        main = [x for x in errs if not isinstance(x[0], tuple)]
+        # an error before the trailers poisons everything after it: report the first one only
+        for where, e in (main[:1] if main else errs[:2]):
             if isinstance(where, tuple):
                 full = acts + branches[where[1]][:where[2] + 1]
                 label = "own-trailer" if where[1] in (0, len(branches) - 1) else f"trailer-bit{where[1] - 1}-flipped"
@@ -486,7 +490,7 @@ def hw_small_configs(rep):
     wmax = rep.pick(3, 4)
     for w in range(1, wmax + 1):
         n = 1 << w
-        dws = [d for d in (1, 2, 3, 4) if d <= w + 1]
+        dws = [1, 2, 3, 4] + ([w + 2] if w + 2 > 4 else [])      # includes data words wider than the register by >= 2 bits
         if rep.quick and w == 3:
             xors = [0, 0b011]
         elif w == 4:
@@ -499,7 +503,7 @@ def hw_small_configs(rep):
                     for refout in (False, True):
                         for xorout in xors:
                             for dw in dws:
-                                if w == 4 and dw == 4 and init not in (0, 0b1111, 0b0101, 0b0011):
+                                if w == 4 and dw >= 4 and init not in (0, 0b1111, 0b0101, 0b0011):
                                     continue
                                 out.append(((w, poly, init, refin, refout, xorout), dw, False))
     # the domain reset as an extra action on a few configurations
@@ -534,6 +538,17 @@ def run(rep):
         for ch in chunks(range(1 << w), per):
             for one in spec:
                 tasks.append(("sw_small", (w, ch, [one])))
+    # wider registers: every polynomial (width 8) / a corner set of polynomials, corner init and xor values
+    wide = {8: (list(range(256)), [0, 0xff, 0xa5], [0, 0xff, 0x3c], [(1, 2), (3, 2), (8, 2), (12, 2)]),
+            13: ([0x1cf5, 0x0001, 0x1000, 0x1fff, 0x0aaa], [0, 0x1fff, 0x1234], [0, 0x1fff, 0x0f0f], [(1, 3), (5, 2), (8, 2), (13, 2), (16, 2)]),
+            32: ([0x04c11db7, 0x1edc6f41, 0x00000001, 0x80000000, 0xffffffff], [0, 0xffffffff, 0x12345678], [0, 0xffffffff, 0x0f0f0f0f],
+                 [(1, 3), (7, 2), (8, 2), (32, 2), (33, 2), (64, 1)])}
+    for w, (polys, inits, xors, spec) in wide.items():
+        for ch in chunks(polys, 16):
+            for dw, ml in spec:
+                tasks.append(("sw_small", (w, ch, [(dw, corner_alphabet(dw), ml)], inits, xors)))
+    rep.setcov("sw_wide_plan", {f"crc_width={w}": f"{len(v[0])} polynomials x init {v[1]} x xor {v[2]} x refin x refout x (data_width, max length) {v[3]}"
+                                for w, v in wide.items()})
     rep.setcov("sw_plan", {f"crc_width={w}": [f"data_width={dw}: all sequences of length<={ml} over "
                                               f"{'all' if dw <= 4 else len(corner_alphabet(dw))} words" for dw, ml in s]
                            for w, s in plan.items()})
@@ -557,13 +572,13 @@ def run(rep):
     for n in uniq:
         w = cat_params(n)[0]
         if rep.quick:
-            dws = [8 if w % 8 == 0 else 1]
+            dws = [8 if w % 8 == 0 else 1] + ([8] if w < 6 else [])
         else:
             dws = [d for d in DIV72 if w % d == 0] + [8]
         for i, dw in enumerate(sorted(set(dws))):
             items.append((n, dw, dw == 8 or (rep.quick and i == 0)))
     for ch in chunks(items, 3):
-        tasks.append(("hw_cat", (ch, rep.pick(2, 3))))
+        tasks.append(("hw_cat", (ch, rep.pick(3, 4))))
     rep.setcov("catalogue_distinct_algorithms", len(uniq))
 
     flags = set()
